@@ -82,8 +82,10 @@ func c17ShapeValue(shape string, pat fhir.Resource, name *dtpb.HumanName) system
 	return c
 }
 
-func c17IsShape(k string) bool  { return strings.HasPrefix(k, "shape:") }
-func c17IsNested(k string) bool { return k == "coll-nested" || (c17IsShape(k) && strings.Contains(k, "[")) }
+func c17IsShape(k string) bool { return strings.HasPrefix(k, "shape:") }
+func c17IsNested(k string) bool {
+	return k == "coll-nested" || (c17IsShape(k) && strings.Contains(k, "["))
+}
 
 func c17VarValue(k string, pat fhir.Resource, name *dtpb.HumanName) any {
 	if c17IsShape(k) {
@@ -469,7 +471,9 @@ func c17RunFn(ctx *Ctx, c c17FnCase) {
 		case "good1":
 			opts = append(opts, compopts.AddFunction(name, func(in system.Collection, s system.String) (system.Collection, error) { return in, nil }))
 		case "good2":
-			opts = append(opts, compopts.AddFunction(name, func(in system.Collection, d system.Decimal, b system.Boolean) (system.Collection, error) { return in, nil }))
+			opts = append(opts, compopts.AddFunction(name, func(in system.Collection, d system.Decimal, b system.Boolean) (system.Collection, error) {
+				return in, nil
+			}))
 		case "good-proto":
 			opts = append(opts, compopts.AddFunction(name, func(in system.Collection, d *dtpb.Coding) (system.Collection, error) { return in, nil }))
 		case "bad-first":
